@@ -320,6 +320,16 @@ func init() {
 				}
 			}
 			if fsv := p.structField(*op, ot, "FS"); !isNilPtr(fsv) {
+				// Open starts with FS.MkdirAll(dirname) issued through the caller's FS:
+				// a harness FS wrapper sees it (a crash point in front of Pebble's own
+				// creation and sync of the directory)
+				if itf, ok := fsv.(Iface); ok && itf.T != nil {
+					if _, isModel := itf.V.(*NativeObj); !isModel {
+						if e := p.callMethod(fsv, "MkdirAll", dir, p.ctx.BV(0o755, 32)); !isNilPtr(e) {
+							return Tuple{(*Value)(nil), e}
+						}
+					}
+				}
 				db, err := p.fsOpenPebble(fsv, dir)
 				if err != nil {
 					return Tuple{(*Value)(nil), err}
